@@ -357,7 +357,8 @@ def rule_9(ctx):
                                    'cell, however evaluation got there - and a defined name the cell it is bound to in this workbook.')
     n += S.check_names_history(ctx, anchor, 'reference workbook, edits',
                                'A defined name means the cell it is bound to - its current value, however the cell was set.')
-    ctx.floor(55, 'reference-workbook cells')
+    n += S.check_loads_are_independent(ctx, anchor, 'references after an earlier load')
+    ctx.floor(75, 'reference-workbook cells')
 
 
 RULES = [
